@@ -167,7 +167,7 @@ func sectionsKey(doc map[string]interface{}) string {
 func hasKey(m map[string]interface{}, k string) bool { _, ok := m[k]; return ok }
 
 func checkC18(c *hx.Ctx) {
-	c.Rule("(1) patches generated around each structural rule - every violation singly and in pairs on top of a valid patch: id empty / 51 characters / non URL-safe / duplicated, key type not permitted for a declared purpose, zero or two key-material members (the surplus one also null or empty), service type 31 characters, invalid URI endpoint (single, second of a list, after an object), disabled action, JSON-patch path / from addressing /publicKey or /service in every pointer spelling - plus random mutations of valid patches; oracle: whenever patchvalidator.Validate / ValidateDelta accepts, an independent rule checker finds no violation (and every generated violation is rejected); (2) every accepted delta, and every JSON patch over all six RFC 6902 operations x 34 pointer shapes for path and from x present/absent/null/ill-typed value (exhaustive for single operations, random lists of 1-3), is applied to 3 small documents in crash-isolated workers with a per-call watchdog: must return a document or an error, never panic, crash or hang, and an accepted JSON patch must leave the publicKey and service sections unchanged; non-trivial = rule-violating or RFC 6902 case; distinct = distinct (document, patch list)")
+	c.Rule("(1) patches generated around each structural rule - every violation singly and in pairs on top of a valid patch: id empty / 51 characters / non URL-safe / duplicated (over every pairing of key-entry kinds: type x JWK / base58 material), key type not permitted for a declared purpose, zero or two key-material members (the surplus one also null or empty), service type 31 characters, invalid URI endpoint (single, second of a list, after an object), disabled action, JSON-patch path / from addressing /publicKey or /service in every pointer spelling - plus random mutations of valid patches; oracle: whenever patchvalidator.Validate / ValidateDelta accepts, an independent rule checker finds no violation (and every generated violation is rejected); (2) every accepted delta, and every JSON patch over all six RFC 6902 operations x 34 pointer shapes for path and from x present/absent/null/ill-typed value (exhaustive for single operations, random lists of 1-3), is applied to 3 small documents in crash-isolated workers with a per-call watchdog: must return a document or an error, never panic, crash or hang, and an accepted JSON patch must leave the publicKey and service sections unchanged; non-trivial = rule-violating or RFC 6902 case; distinct = distinct (document, patch list)")
 	c.Assume("the key-type/purpose table and the limits 50/30 are frozen from the statement and the pinned tree; URI validity = net/url.ParseRequestURI; the watchdog (30 s per call, normal calls take < 1 ms) counts as a violation of the termination clause")
 	pool := hx.NewPool(c, "compose", 16, 4*1024*1024, 30*time.Second)
 	defer pool.Close()
@@ -389,6 +389,51 @@ func checkC18(c *hx.Ctx) {
 			}
 		}
 	}
+	// duplicate ids over every pairing of key-entry kinds (type x material encoding) and service-endpoint shapes, adjacent and
+	// separated, in add-* and in replace: the rule does not depend on what the entries look like
+	{
+		dr := c.Rng("dup-kinds")
+		var kinds []map[string]interface{}
+		seenKind := map[string]bool{}
+		for n := 0; n < 400 && len(kinds) < 14; n++ {
+			e := genKeyEntry(dr, "dupId")
+			_, b58 := e["publicKeyBase58"]
+			sig := fmt.Sprint(e["type"], b58)
+			if !seenKind[sig] {
+				seenKind[sig] = true
+				kinds = append(kinds, e)
+			}
+		}
+		for ai, a := range kinds {
+			for bi, b := range kinds {
+				first, second := ref.CopyTree(a).(map[string]interface{}), ref.CopyTree(b).(map[string]interface{})
+				what := fmt.Sprintf("duplicate key id, first entry %v, second entry %v", a["type"], b["type"])
+				switch (ai + bi) % 3 {
+				case 0:
+					jobs = append(jobs, job{[]interface{}{map[string]interface{}{"action": "add-public-keys", "publicKeys": []interface{}{first, second}}}, "duplicate-id-kinds", what, nil})
+				case 1:
+					jobs = append(jobs, job{[]interface{}{map[string]interface{}{"action": "add-public-keys", "publicKeys": []interface{}{first, goodKey("between"), second}}}, "duplicate-id-kinds", what, nil})
+				default:
+					jobs = append(jobs, job{[]interface{}{patchReplace([]interface{}{goodKey("before"), first, second}, nil)}, "duplicate-id-kinds", what + " (replace)", nil})
+				}
+			}
+		}
+		var svcs []map[string]interface{}
+		for n := 0; n < 6; n++ {
+			svcs = append(svcs, genService(dr, "dupSvc"))
+		}
+		for ai, a := range svcs {
+			for bi, b := range svcs {
+				first, second := ref.CopyTree(a).(map[string]interface{}), ref.CopyTree(b).(map[string]interface{})
+				if (ai+bi)%2 == 0 {
+					jobs = append(jobs, job{[]interface{}{map[string]interface{}{"action": "add-services", "services": []interface{}{first, goodSvc("between"), second}}}, "duplicate-id-kinds", "duplicate service id", nil})
+				} else {
+					jobs = append(jobs, job{[]interface{}{patchReplace(nil, []interface{}{first, second})}, "duplicate-id-kinds", "duplicate service id (replace)", nil})
+				}
+			}
+		}
+		c.Set("duplicate_id_key_entry_kinds", len(kinds))
+	}
 	// duplicates
 	jobs = append(jobs,
 		job{[]interface{}{map[string]interface{}{"action": "add-public-keys", "publicKeys": []interface{}{goodKey("dup"), goodKey("x"), goodKey("dup")}}}, "duplicate-id", "duplicate key id", nil},
@@ -556,7 +601,7 @@ func checkC18(c *hx.Ctx) {
 		}
 	})
 	c.Set("worker_crashes", pool.Crashes)
-	for _, k := range []string{"rejected:key-rule", "rejected:service-rule", "rejected:key-rule-in-replace", "rejected:service-rule-in-replace", "rejected:duplicate-id", "rejected:action-enablement", "accepted:action-enablement"} {
+	for _, k := range []string{"rejected:key-rule", "rejected:service-rule", "rejected:key-rule-in-replace", "rejected:service-rule-in-replace", "rejected:duplicate-id", "rejected:duplicate-id-kinds", "rejected:action-enablement", "accepted:action-enablement"} {
 		c.Floor(k, 4)
 	}
 	c.Floor("accepted:valid-boundary", 2)
